@@ -10,6 +10,7 @@ mod rng;
 mod t1_adapters;
 mod t1_addr;
 mod t1_config;
+mod t1_hshake;
 mod t1_misc;
 mod t1_pw;
 mod t1_sstcp;
@@ -36,6 +37,7 @@ fn exec_case(f: &[&str]) -> Vec<String> {
         "ssudp" => t1_ssudp::exec(f),
         "vmbody" | "vmsrv" | "vmcli" | "vmauthlen" => t1_vmess::exec(f),
         "trojsrv" | "trojcu" | "trojenc" | "trojsenc" | "s5ir" | "s5cr" | "s5irs" | "s5crs" | "s5udp" | "s5udpenc" | "http" => t1_misc::exec(f),
+        "hshake" => t1_hshake::exec(f),
         "s5enc" | "s5dec" | "s5try" | "vmw" | "vmr" => t1_addr::exec(f),
         "cfgcipher" | "cfgproto" | "cfgmode" | "cfgkind" | "cfgobj" | "cfgkdf" | "cfgb64" | "cfgkeys" | "cfguser" | "cfgpath" | "cfgvmess" => t1_config::exec(f),
         _ => vec![format!("UNKNOWN-COMPONENT {}", f[0])],
@@ -82,6 +84,7 @@ fn main() {
                 "socks5" => t1_misc::generate_socks5(&mut out, seed, thorough),
                 "http" => t1_misc::generate_http(&mut out, seed, thorough),
                 "addr" => t1_addr::generate(&mut out, seed, thorough),
+                "hshake" => t1_hshake::generate(&mut out, seed, thorough),
                 "config" => t1_config::generate(&mut out, seed, thorough),
                 "adapters" => t1_adapters::generate(&mut out, seed, thorough),
                 _ => {
